@@ -831,6 +831,23 @@ func plDropScenarios(thorough bool) ([]*plScenario, map[string]map[string]bool) 
 			out = append(out, sc)
 		}
 	}
+	// the task is paused and resumed on the same channel manager before anything was read, and the start-up scan of the
+	// resume announces the partition while the collection's shards are still being registered again: the barrier of the
+	// partition still counts every shard
+	{
+		sc := plShardedScenario("drop:partition/resume-register-race", 2, func(i int) []plPack { return []plPack{pkDropPart(1050)} })
+		withPartition(sc.Colls[0], true)
+		sc.Colls[0].SeekMs = 990
+		sc.Drivers = append(sc.Drivers, plDriver{Kind: "resume", Coll: 0, ResumeSeekMs: 990, ResumeFromStart: true},
+			plDriver{Kind: "addpart", Coll: 0, Part: "p1", PartState: pb.PartitionState_PartitionCreated, AfterStop: true})
+		sc.ParkRegister = true
+		// (two lives of two streams, three drivers and the retry loops of a partition that is not announced yet: the free
+		// arrival orders alone are ~10^5 executions, so this scenario counts every departure from the default order)
+		sc.Strict = true
+		three := 3
+		sc.Bound = &three
+		out = append(out, sc)
+	}
 	// the same collection is announced a second time (list + watch both report it): no second replication, no second drop
 	{
 		sc := plShardedScenario("drop:announced-twice", 2, func(i int) []plPack { return []plPack{pkIns(int64(1000 + i)), pkDropColl(1050)} })
@@ -868,7 +885,7 @@ func TestVerifC04Drop(t *testing.T) {
 		props := "14"
 		if sc.Name == "drop:announced-twice" {
 			props = "14"
-		} else if strings.Contains(sc.Name, "stop") || strings.Contains(sc.Name, "restart") || strings.Contains(sc.Name, "pause-resume") {
+		} else if strings.Contains(sc.Name, "stop") || strings.Contains(sc.Name, "restart") || strings.Contains(sc.Name, "pause-resume") || strings.Contains(sc.Name, "resume-register-race") {
 			props = "4" // a stopped stream is cut short by design; a synthetic drop message was never read from the source
 		}
 		wrapped = append(wrapped, plWrap(sc, plCheck{props: props, synthetic: synth[sc.Name]}))
@@ -887,10 +904,14 @@ func TestVerifC04Drop(t *testing.T) {
 		if scs[i].HeavyBound > 0 && scs[i].HeavyBound < bound {
 			e.Bound = scs[i].HeavyBound
 		}
+		if scs[i].Bound != nil {
+			e.Bound = *scs[i].Bound
+		}
+		e.StrictCost = scs[i].Strict
 		e.Shard, e.NShard = shard, nshard
 		e.Explore(sc)
 	}
-	e.Bound = bound
+	e.Bound, e.StrictCost = bound, false
 	plReport(res, e, "C04")
 	res.Bounds["scenarios"] = len(scs)
 }
